@@ -191,8 +191,11 @@ def main():
     import random
     random.Random(1).shuffle(todo)
     print("%d mutants, %d to evaluate" % (len(ms), len(todo)))
+    from concurrent.futures import as_completed
     with ThreadPoolExecutor(jobs) as ex:
-        for r in ex.map(lambda m: evaluate(fam, m), todo):
+        futs = [ex.submit(evaluate, fam, m) for m in todo]
+        for f in as_completed(futs):
+            r = f.result()
             done[r["id"]] = r
             print(r["id"], r["file"], r["line"], r["op"], "->", r["status"], r.get("caught_by", ""), flush=True)
             json.dump(sorted(done.values(), key=lambda r: (r["file"], r["line"], r["op"])), open(resf + ".tmp", "w"), indent=1)
